@@ -5,6 +5,7 @@ from ..index import AnalysisError, norm
 from ..order_abs import (OrderEvaluator, Unsupported, weak_orderings,
                          spec_three_valued, members)
 from ..report import Finding
+from ..prec_effect import _walk_own
 
 LIBMPI = 'mpmath/libmp/libmpi.py'
 CTX_IV = 'mpmath/ctx_iv.py'
@@ -215,6 +216,7 @@ def run(run, ix, tier):
     run.sample('F-R4', '`t in s` evaluated on %d orderings through ivmpf.__le__ -> mpi_le' % len(orders))
 
     check_fallback_values(run, ix)
+    check_exact_number_operands(run, ix)
 
     # ---- complex operand of `in` (ctx.mpf(t) hands back an ivmpc for a complex t) -----------
     if not any(f.rule in ('F-R3', 'F-R4') for f in run.findings):
@@ -325,9 +327,9 @@ def eval_contains(ix, fnode, s_iv, t_iv, optable, t_imag=None):
             if v[0] == 'civ':
                 return ('iv', v[1]) if e.attr == 'real' else ('imag', v[2])
             raise Unsupported('%s of %s' % (e.attr, v[0]))
-        if isinstance(e, ast.Call) and norm(e.func) in ('self.ctx.mpf', 'self.ctx.convert') \
+        if isinstance(e, ast.Call) and norm(e.func) in ('self.ctx.mpf', 'self.ctx.convert', 'self._operand') \
                 and len(e.args) == 1:
-            return ev(e.args[0])       # conversion of an interval is the identity
+            return ev(e.args[0])       # conversion of an interval is the identity (numbers: rule F-R11)
         if isinstance(e, ast.Call) and norm(e.func) == 'self.ctx.make_mpf' and len(e.args) == 1:
             v = ev(e.args[0])
             if v[0] != 'raw':
@@ -405,3 +407,64 @@ def eval_contains(ix, fnode, s_iv, t_iv, optable, t_imag=None):
     except _Ret as r:
         return r.value
     return None
+
+
+# --------------------------------------------------------------------------- F-R11
+def check_exact_number_operands(run, ix):
+    """F-R11.  `==`, `!=`, the orderings and `in` compare a NUMBER with an interval exactly only if the number is
+    not first replaced by an enclosure rounded to the working precision (iv.convert rounds ints and floats outward:
+    [2**53, 2**53+2] == 2**53+1 was True, 0.1 in [mpf(0.1), mpf(0.3)] False at 30 bits).  The operand helper of
+    ivmpf must convert ints and floats with precision 0 (exact) into a point interval with both endpoints the same
+    value, and _compare / __contains__ must take their non-interval operand through it."""
+    run.rule('F-R11', floor=4, desc='number operands of interval comparisons are converted exactly')
+    cls = ix.module(CTX_IV).classes.get('ivmpf')
+    if cls is None:
+        raise AnalysisError('class ivmpf vanished')
+    helper = cls.methods.get('_operand')
+    users = [cls.methods.get('__contains__'), cls.methods.get('_compare')]
+    if None in users:
+        raise AnalysisError('ivmpf._compare / __contains__ vanished')
+    for u in users:
+        convs = [c for c in _walk_own(u.node) if isinstance(c, ast.Call) and isinstance(c.func, ast.Attribute)
+                 and c.func.attr in ('convert', 'mpf', '_operand') and c.args
+                 and norm(c.args[0]) == u.params[1]]
+        if not convs:
+            raise AnalysisError('%s: conversion of the operand not found' % u.qualname)
+        for c in convs:
+            if c.func.attr == '_operand':
+                run.ok('F-R11', '%s takes its operand through _operand' % u.qualname)
+            else:
+                run.fail(Finding('F-R11', CTX_IV, u.qualname, norm(c), 'a number operand is converted with %s, which '
+                                 'rounds an int or float OUTWARD to the working precision: the comparison is then '
+                                 'made with that enclosure, not with the number (iv.mpf([2**53, 2**53+2]) == 2**53+1 '
+                                 'is True; 0.1 in iv.mpf([mpf(0.1), mpf(0.3)]) is False at 30 bits)' % norm(c.func),
+                                 line=c.lineno))
+    if helper is None:
+        if any(f.rule == 'F-R11' for f in run.findings):
+            return
+        raise AnalysisError('ivmpf._operand vanished')
+    exact = [c for c in _walk_own(helper.node) if isinstance(c, ast.Call) and norm(c.func) in
+             ('convert_mpf_', 'from_int', 'from_float')]
+    for c in exact:
+        idx = 1
+        pe = c.args[idx] if len(c.args) > idx else None
+        if norm(c.func) == 'convert_mpf_' and isinstance(pe, ast.Constant) and pe.value == 0:
+            run.ok('F-R11', '_operand: %s converts exactly (precision 0)' % norm(c))
+        elif norm(c.func) in ('from_int', 'from_float') and (pe is None or (isinstance(pe, ast.Constant) and pe.value == 0)) \
+                and norm(c.func) == 'from_int':
+            run.ok('F-R11', '_operand: %s converts exactly' % norm(c))
+        else:
+            run.fail(Finding('F-R11', CTX_IV, helper.qualname, norm(c), 'the number is rounded to `%s` bits before '
+                             'it is compared' % (norm(pe) if pe is not None else 'default'), line=c.lineno))
+    if not exact:
+        run.fail(Finding('F-R11', CTX_IV, helper.qualname, 'def _operand', 'no exact conversion of ints / floats',
+                         line=helper.lineno))
+    pts = [c for c in _walk_own(helper.node) if isinstance(c, ast.Call) and norm(c.func).endswith('make_mpf') and c.args
+           and isinstance(c.args[0], ast.Tuple) and len(c.args[0].elts) == 2]
+    for c in pts:
+        a, b = c.args[0].elts
+        if norm(a) == norm(b):
+            run.ok('F-R11', '_operand: %s is a point interval' % norm(c))
+        else:
+            run.fail(Finding('F-R11', CTX_IV, helper.qualname, norm(c), 'the number becomes a non-degenerate interval',
+                             line=c.lineno))
